@@ -34,6 +34,8 @@ class ConcurrentShim(object):
 class C19(object):
     id = "C19"
     engine = "pysched"
+    time_keys = {"steps": "pre-emption points (bytecodes or source lines of the files under test)"}
+    fault_keys = ["switches", "pool_threads_spawned"]
     tiers = {"quick": {"runs": 700, "budget_s": 60, "selftest_every": 30, "fresh_selftest": 6},
              "thorough": {"runs": 200000, "budget_s": 800, "selftest_every": 200, "fresh_selftest": 12}}
     rule = ("one run = (ystep, y0 within +-10 steps, sinogram height 15..64 odd/even, 0-180 or 0-360 scan with 20..90 "
